@@ -437,6 +437,22 @@ class CFG:
                     work.append(v)
         return set(state[target] or ())
 
+    def reachable_avoiding_edges(self, start: int, blocked) -> set[int]:
+        """Nodes reachable from `start` along edges for which blocked(u, v, cond) is false (cond is (test expr, polarity) for
+        branch edges, None or a (str, ...) marker otherwise)."""
+        seen = {start}
+        dq = deque([start])
+        while dq:
+            u = dq.popleft()
+            for v, cond in self.succ[u]:
+                c = cond if (cond is not None and not isinstance(cond[0], str)) else None
+                if blocked(u, v, c):
+                    continue
+                if v not in seen:
+                    seen.add(v)
+                    dq.append(v)
+        return seen
+
     def must_hold(self, target: int, edge_establishes, node_transfer) -> bool:
         """Must-analysis of one boolean property P along all paths from entry to the START of `target`.
         edge_establishes(facts) -> bool : the decomposed branch facts [(text, polarity, paths)] of a taken edge make P true;
